@@ -4,7 +4,7 @@ class P(vlib.Prop):
     id = "C11"
     watch = ("pkg/sbom/generator/spdx/spdx.go", "pkg/build/sbom.go", "pkg/sbom/options/options.go")
     rule = ("ident stage: stringToIdentifier on hand-picked strings, all 256 single bytes (alone and embedded), random byte strings; "
-            "generate stage: the real spdx.Generate on a corpus of corners (no image digest, several layers, colliding identifiers, "
+            "generate stage: the real spdx.Generate on a corpus of corners (no image digest, several layers, colliding identifiers incl. three on one id, a numbered id that is itself taken, an imported element squatting on a later apk's id (regression replays of C11-F1), "
             "embedded SBOMs located by each of the three candidate paths, unparseable / directory / missing-element documents, chains and "
             "cycles, shared elements, replacePackage(id,id), several described elements) and on random installed sets "
             "(names/versions over an alphabet with characters outside [a-zA-Z0-9.-], provoked collisions, long lists) with and without "
@@ -43,6 +43,7 @@ class P(vlib.Prop):
                   "spdx.go whose identifier alphabet is the regular expression goextract reads from the source on every run; the model is tied to the code by "
                   "differential comparison of whole documents (packages with id/name/version/checksums, relationships, described ids, extracted licensing infos) and the verified validators "
                   "(ids unique, id syntax, references resolve, agreement with the installed list, digests, licensing infos preserved) are run on the documents the real code emits. "
+                  "c11_one_per_apk: without embedded SBOMs every installed apk has exactly one element and the ids are distinct for EVERY set of pairwise distinct (name, version), colliding identifiers included (the defect C11-F1, fixed in /repo by 7c2586e, is kept as the regression replay c11_one_per_apk_collision_fixed and as corpus cases; c11_repair_conservative: nothing changes where the ids were distinct). "
                   "The inputs of the generator are inside the model: c11_image_sbom_inputs / c11_all_installed_handed_over / c11_index_sbom_inputs state that pkg/build/sbom.go hands over the built "
                   "image's digest, its manifest's layers, every installed paragraph whatever its architecture field, and every image of the index in architecture order; they compute with the "
                   "assignment sources goextract traces in sbom.go on every run. mergeLicensingInfos: union keyed by id, target first, every source info kept with its text, failure exactly on a conflict.")
@@ -50,7 +51,7 @@ class P(vlib.Prop):
                   "Go regexp (maximal runs of a character class), apkfs.MemFS lookups, sort.Slice (any sorted permutation), GetInstalled / Manifest / Digest themselves; correspondence is differential testing, not proof")
     design_ref = "DESIGN.md 7 C11"
     modelled_not_verified = ("stringToIdentifier, Generate, ProcessInternalApkSBOM, copySBOMElements, replacePackage, the final de-duplication and GenerateIndex are "
-                             "modelled by hand (Model/Sbom.v), mergeLicensingInfos and its place in the apk loop in Model/SbomLic.v; validIDCharsRe is regenerated from spdx.go; the provenance of "
+                             "modelled by hand (Model/Sbom.v; whether and how Generate numbers an id that is taken — fix 7c2586e — is regenerated: Generated/C11Prov.apk_id_policy, read from the loop between stringToIdentifier and the append and from idTakenByAnother), mergeLicensingInfos and its place in the apk loop in Model/SbomLic.v; validIDCharsRe is regenerated from spdx.go; the provenance of "
                              "the generator's inputs in pkg/build/sbom.go is regenerated (Generated/C11Prov.v) and interpreted by Model/SbomProv.v; purls, licence expressions of packages, "
                              "suppliers, creation info, document name, readReleaseData's parsing and the SBOM file names are not modelled")
 
